@@ -32,8 +32,13 @@ pub fn constants(
             location.clone(),
             rpl.backward()?
                 .into_iter()
+                // a predecessor that is unreachable from the entry has no state
+                // (it never executes) and does not contribute
                 .fold(Constants::new(), |c, location| {
-                    c.join(&constants[&location.into()])
+                    match constants.get(&location.into()) {
+                        Some(predecessor) => c.join(predecessor),
+                        None => c,
+                    }
                 }),
         );
     }
